@@ -27,10 +27,13 @@ const (
 
 // DG11Spec is the abstract value; only fields selected by Present are written.
 type DG11Spec struct {
-	Present            uint16
-	Name               NameSpec
-	OtherNames         []NameSpec // 1..n when D11OtherNames is set
-	OtherNamesBare     bool       // false: A0{02 n, n x 5F0F} (9303-10); true: n x 5F0F directly inside 6B (seen in the field; the library documents support)
+	Present        uint16
+	Name           NameSpec
+	OtherNames     []NameSpec // 1..n when D11OtherNames is set
+	OtherNamesBare bool       // false: A0{02 n, n x 5F0F} (9303-10); true: n x 5F0F directly inside 6B (seen in the field; the library documents support)
+	// OtherNamesListedAs: how the tag list (5C) names the other-names element in the A0 form. 0: 5F0F (the tag of
+	// the repeated element), 1: A0 (the tag of the template), 2: both - each is a data object that is really in the file
+	OtherNamesListedAs int
 	PersonalNumber     string
 	FullDOB            string // YYYYMMDD
 	BCDDate            bool   // 4 BCD bytes instead of 8 ASCII digits
@@ -72,7 +75,13 @@ func BuildDG11(s DG11Spec) File {
 		if s.Present&(1<<i) == 0 {
 			continue
 		}
-		tagList = append(tagList, tagBytes(tag)...)
+		if 1<<i == D11OtherNames && !s.OtherNamesBare && s.OtherNamesListedAs == 1 {
+			tagList = append(tagList, 0xA0)
+		} else if 1<<i == D11OtherNames && !s.OtherNamesBare && s.OtherNamesListedAs == 2 {
+			tagList = append(append(tagList, 0xA0), tagBytes(tag)...)
+		} else {
+			tagList = append(tagList, tagBytes(tag)...)
+		}
 		switch 1 << i {
 		case D11Name:
 			objs = append(objs, tlv(tag, []byte(s.Name.Wire())))
@@ -128,7 +137,7 @@ func BuildDG11(s DG11Spec) File {
 			v.CustodyInformation = s.Custody
 		}
 	}
-	label := fmt.Sprintf("present=%013b otherNames=%d bare=%v bcd=%v", s.Present, len(s.OtherNames), s.OtherNamesBare, s.BCDDate)
+	label := fmt.Sprintf("present=%013b otherNames=%d bare=%v bcd=%v listedAs=%d", s.Present, len(s.OtherNames), s.OtherNamesBare, s.BCDDate, s.OtherNamesListedAs)
 	return File{Kind: KDG11, Label: label, Bytes: tlv(0x6B, cat(tlv(0x5C, tagList), cat(objs...))), View: v}
 }
 
@@ -189,6 +198,16 @@ func enumDG11(thorough bool, emit func(File)) {
 				continue
 			}
 			emit(BuildDG11(StdDG11(mask, cf.n, cf.bare, cf.bcd)))
+		}
+	}
+	// the tag list names the other-names element by the template tag A0, or by both A0 and 5F0F
+	for _, la := range []int{1, 2} {
+		for n := 1; n <= 3; n++ {
+			for _, mask := range []uint16{D11OtherNames, D11Name | D11OtherNames | D11PersonalNumber, D11All} {
+				sp := StdDG11(mask, n, false, false)
+				sp.OtherNamesListedAs = la
+				emit(BuildDG11(sp))
+			}
 		}
 	}
 	// a UTF-8 name and place (9303-10: DG11 text is UTF-8)
